@@ -14,7 +14,8 @@ EXPLANATION = (
     "Frame::read_head(..) and returns Ok(None)/Err on EOF, and read_head and from_buffer compute the frame length from the same header "
     "fields; H1: exactly the bytes following the handshake are left for the tunnel (read-ahead drained). Follows the tokio contracts; the "
     "equality over all cut sets is argued from these shapes, not enumerated."
-    " S4: in the head function of the stream frame decoder a condition derived from the amount buffered (remaining / len / is_empty, or a comparison against an unbounded view of the buffer) has no side that can only fail; S3's length forms do not see through sums that can wrap at a narrow width.")
+    " S4: in the head function of the stream frame decoder a condition derived from the amount buffered (remaining / len / is_empty, or a comparison against an unbounded view of the buffer) has no side that can only fail; S3's length forms do not see through sums that can wrap at a narrow width."
+    ' BUF-ONCE: see C01.')
 RULE_TEXT = "instances = read sites, delimiter reads, frame-return edges"
 TRUSTED = ["tokio read_exact/read_uN/read_line/read_until loop until satisfied or EOF"]
 NOT_DECIDED = ["equality of results over all cut sets (follows from S1-S3 given the tokio contracts; not enumerated)"]
@@ -369,3 +370,4 @@ def run(chk, prog):
 
     # ---------------------------------------------------------------- H1
     shared.rule_h1(chk, prog)
+    shared.rule_buf_once(chk, prog)
